@@ -183,12 +183,12 @@ func c44FlagString(flag int) string {
 func c44OpenShape(kind string, flag int) string {
 	w := flag&(os.O_WRONLY|os.O_RDWR) != 0
 	switch {
-	case flag&(os.O_APPEND|os.O_SYNC) != 0 && kind != "root":
-		return "append"
 	case w && kind == "dir":
 		return "dir-for-writing"
 	case w && kind == "root":
 		return "root-for-writing"
+	case flag&(os.O_APPEND|os.O_SYNC) != 0 && kind != "root":
+		return "append"
 	}
 	s := kind + "-r"
 	if w {
